@@ -40,8 +40,31 @@ def apply_step(proc, step):
         return "crash", "%s: %s @ %s:%d %s" % (type(ex).__name__, ex, where.filename.split("/yamlpath/")[-1], where.lineno, where.name)
 
 
+def _canon(doc, i=1):
+    """Nested canonical form of a node table: Set members sorted (a Set is unordered), anchors and alias flags kept."""
+    n = doc[i - 1]
+    tag = (n["anchor"], bool(n["alias"]))
+    if n["k"] == "map":
+        return ("map", tag, [((k["t"], k["v"]), _canon(doc, c)) for k, c in zip(n["keys"], n["kids"])])
+    if n["k"] == "seq":
+        return ("seq", tag, [_canon(doc, c) for c in n["kids"]])
+    if n["k"] == "set":
+        return ("set", tag, sorted((_canon(doc, c) for c in n["kids"]), key=repr))
+    v = n["v"]
+    if n["t"] == "float":
+        try:
+            v = repr(float(v))
+        except ValueError:
+            pass
+    if n["t"] == "bool":
+        v = v.lower()
+    return ("s", tag, n["t"], v)
+
+
 def diff_tables(a, b):
-    """Short description of the first difference between two node tables."""
+    """Short description of the first difference between two node tables ('' when equal up to Set order)."""
+    if a and b and _canon(a) == _canon(b):
+        return ""
     if len(a) != len(b):
         return "node count %d vs %d" % (len(a), len(b))
     for i, (x, y) in enumerate(zip(a, b), 1):
@@ -144,6 +167,87 @@ def run_histories(ctx, ops, pid, cfgs):
         "trusted_base": ["TLC 1.8", "spec/YEdit.tla as the plain-data model", "harness/absdoc.py abstraction"],
     })
     return recs
+
+
+def random_histories(ctx, pid, n_docs, steps):
+    """C->S beyond the bound: seeded random histories folded by TLC (Batch_EditHist), replayed on one Processor.
+
+    A violation is attributed to the property of the failing step's operation."""
+    import os
+    import random
+    from harness import randdocs, querycorpus
+    rng = random.Random(ctx.seed + 17)
+    recs = []
+    for i in range(n_docs):
+        d = randdocs.rand_doc(rng, max_nodes=14, max_depth=3)
+        evs = []
+        for _ in range(steps):
+            op = rng.choice(["set_must", "set_must", "set_opt", "delete"])
+            segs = randdocs.rand_path(rng, d, maxlen=3)
+            if op == "set_opt":
+                segs = [s for s in segs if s["ty"] in ("KEY", "INDEX")] or [randdocs.seg("KEY", "zz")]
+            t, v = rng.choice([("int", "7"), ("str", "zz"), ("float", "2.5"), ("bool", "true")])
+            evs.append({"op": op, "segs": segs, "t": t, "v": v})
+        recs.append({"id": i, "doc": d, "events": evs})
+    exp = {}
+    for part in [recs[i:i + 400] for i in range(0, len(recs), 400)]:
+        rin, rout = ctx.path("hist_%d.in.json" % part[0]["id"]), ctx.path("hist_%d.out.json" % part[0]["id"])
+        with open(rin, "w") as fh:
+            json.dump(part, fh)
+        core.run_tlc(ctx, "Batch_EditHist", "Batch_EditHist.cfg", env={"RECORDS_IN": rin, "VERDICTS_OUT": rout},
+                     workers=1, name="hist_%d" % part[0]["id"], timeout=3600)
+        with open(rout) as fh:
+            for o in json.load(fh):
+                exp[o["id"]] = o["steps"]
+        os.remove(rin)
+    items = [(r, exp[r["id"]]) for r in recs if exp[r["id"]]]
+    total = 0
+    for res in querycorpus.pmap(_hist_work, items, chunk=50):
+        n, bad = res
+        total += n
+        if bad:
+            op, kind, msg, rp = bad
+            owner = {"set_must": "C03", "set_opt": "C09", "delete": "C04"}[op]
+            if owner == pid:
+                sig = "%s:random-history:%s" % (kind, op)
+                if kind == "crash":
+                    sig += ":" + msg.split(" @ ")[-1].split(" ")[-1]
+                ctx.violation(sig, msg, rp)
+    ctx.coverage["random_history_steps_replayed"] = total
+    ctx.coverage["random_histories"] = len(items)
+    ctx.coverage["evaluations"] = ctx.coverage.get("evaluations", 0) + total
+    ctx.coverage["traces_validated_against_impl"] = ctx.coverage.get("traces_validated_against_impl", 0) + len(items)
+
+
+def _hist_work(items):
+    out = []
+    for rec, steps in items:
+        out.append(_replay_random(rec, steps))
+    return out
+
+
+def _replay_random(rec, steps):
+    from yamlpath import Processor
+    from harness import absdoc
+    text = absdoc.concretise(rec["doc"])
+    data = absdoc.load(text)
+    proc = Processor(absdoc.LOG, data)
+    n = 0
+    for k, (ev, st) in enumerate(zip(rec["events"], steps)):
+        step = {"op": ev["op"], "dot": st["dot"], "t": ev["t"], "v": ev["v"]}
+        oc, msg = apply_step(proc, step)
+        n += 1
+        rp = {"kind": "random-history", "doc": rec["doc"], "events": rec["events"][:k + 1], "steps": steps[:k + 1]}
+        hist = "; ".join("%s %s%s" % (e["op"], s["dot"], ("=" + e["v"]) if e["op"] != "delete" else "")
+                         for e, s in zip(rec["events"][:k + 1], steps))
+        exp_out = st["out"]
+        if oc != exp_out and not (ev["op"] == "delete" and exp_out == "ok" and oc == "ok"):
+            return n, (ev["op"], "crash" if oc == "crash" else "outcome",
+                       "step %d of [%s] on %s: expected %s, got %s %s" % (k + 1, hist, text.replace("\n", "|"), exp_out, oc, msg), rp)
+        d = diff_tables(absdoc.abstract(proc.data), st["doc"])
+        if d:
+            return n, (ev["op"], "document", "after [%s] on %s: %s" % (hist, text.replace("\n", "|"), d), rp)
+    return n, None
 
 
 def _segkinds(dot):
